@@ -154,6 +154,14 @@ def gen_defset(rng, n_entities=None, fault=None, simple_types=False, want_nested
         for j in range(rng.randint(130, 200)):
             sec['props'].append({'name': 'w%d' % j, 'type': ('tree', {'k': 'int', 'size': rng.choice([1, 1, 2]), 'signed': rng.random() < 0.3}),
                                  'flags': rng.choice(['ALL_CLIENTS', 'OWN_CLIENT', 'OTHER_CLIENTS']), 'default': None})
+    if rng.random() < 0.03:
+        # a wholly fixed-size property at or beyond the size the definitions treat as "infinite" (65535 bytes): it ties with the
+        # variable-size ones in the stable size order
+        sec = rng.choice(ds['entities'])
+        big = rng.choice([{'k': 'array', 'of': {'k': 'int', 'size': 1, 'signed': False}, 'size': rng.choice([65534, 65535, 65536, 70000])},
+                          {'k': 'array', 'of': {'k': 'vec', 'n': 3}, 'size': 5500},
+                          {'k': 'array', 'of': {'k': 'f64'}, 'size': 8192}])
+        sec['props'].insert(rng.randint(0, len(sec['props'])), {'name': 'huge', 'type': ('tree', big), 'flags': rng.choice(['ALL_CLIENTS', 'OWN_CLIENT']), 'default': None})
     if want_nested:
         for sec in ds['entities']:
             for j in range(rng.randint(1, 3)):
